@@ -95,6 +95,7 @@ class World:
         self.src_dir, self.fname = src_dir, fname
         self.text = {}
         self.enums, self.enumconst, self.records, self.aliases, self.consts = {}, {}, {}, {}, {}
+        self.fetched = set()
         self.funcs = []          # definitions in the main file
         self.inline = {}         # name -> [FunctionDecl with body] (headers and main file)
         docs = clang_docs(src_dir, fname)
@@ -156,6 +157,16 @@ class World:
                 self.inline.setdefault(d['name'], []).append(d)
                 if 'includedFrom' not in d.get('loc', {}) and 'includedFrom' not in d.get('range', {}).get('begin', {}):
                     self.funcs.append(d)
+
+    def fetch_function(self, name):
+        """a function the name filter missed (file-static helper of the same translation unit): read it by name, once"""
+        if name in self.fetched or not re.fullmatch(r'[A-Za-z_]\w*', name or ''):
+            return
+        self.fetched.add(name)
+        for d in clang_docs(self.src_dir, self.fname, name):
+            if d.get('kind') == 'FunctionDecl' and d.get('name') == name and any(c.get('kind') == 'CompoundStmt' for c in d.get('inner', [])):
+                if not any(f.get('id') == d.get('id') for f in self.inline.get(name, [])):
+                    self.inline.setdefault(name, []).append(d)
 
     # ---- types
     def ty(self, q):
@@ -306,6 +317,7 @@ class Eval:
         self.frame = Frame()
         self.msgname = None
         self.accept_cond = None
+        self.assumed = []
         self.cond_bit = None
         self.retval = None
         self.len_min, self.len_max = 0, 223
@@ -847,6 +859,8 @@ class Eval:
                 return Int([1 - b.bits[0]])
             if isinstance(b, Int) and isinstance(b.bits[0], tuple) and b.bits[0][0] == 'c':
                 return Int([('c', ('not', b.bits[0][1]))])
+            if isinstance(b, Int) and isinstance(b.bits[0], tuple) and b.bits[0][0] == 'hc':
+                return Int([('hc', ('not', b.bits[0][1]))])
             return Unknown('logical not of symbolic value')
         if op in ('&', '*'):
             return Unknown('address/dereference')
@@ -983,6 +997,8 @@ class Eval:
     def call(self, n):
         name, sig = self.callee_name(n)
         args = n['inner'][1:]
+        if name and name not in self.w.inline:
+            self.w.fetch_function(name)
         cands = [f for f in self.w.inline.get(name, []) if f['type'].get('qualType') == sig] if name else []
         if not cands and name:
             # the declaration referred to may print its type differently (typedef spelling): fall back to name + arity
@@ -1197,10 +1213,54 @@ class Eval:
             return ('return', v)
         if k == 'IfStmt':
             return self.if_stmt(st)
-        if k in ('ForStmt', 'WhileStmt', 'DoStmt', 'SwitchStmt'):
-            raise Untranslatable('loop/switch (%s)' % k)
+        if k in ('ForStmt', 'WhileStmt', 'DoStmt'):
+            return self.loop(st)
+        if k == 'BreakStmt':
+            return ('break', None)
+        if k == 'ContinueStmt':
+            return ('continue', None)
+        if k not in ('BinaryOperator', 'CompoundAssignOperator', 'UnaryOperator', 'CallExpr', 'CXXMemberCallExpr', 'CXXOperatorCallExpr',
+                     'ExprWithCleanups', 'ParenExpr', 'ImplicitCastExpr', 'CStyleCastExpr', 'ConditionalOperator'):
+            raise Untranslatable('statement kind ' + k)      # never skip something that is not interpreted
         self.ev(st)
         return None
+
+    def loop(self, st):
+        """for / while / do with a condition that is a known constant in every iteration (a small constant bound, or
+        `while (true)` left by `break`): executed iteration by iteration. A condition on symbolic values (a list of
+        unknown length) is outside the fragment."""
+        k = st['kind']
+        parts = st['inner']
+        if k == 'ForStmt':
+            init, cond, inc, body = parts[0], parts[2], parts[3], parts[4]
+            if init and init.get('kind'):
+                r = self.stmt(init)
+                if r is not None:
+                    raise Untranslatable('loop initialiser')
+        elif k == 'WhileStmt':
+            cond, inc, body = parts[0], None, parts[-1]
+        else:
+            body, cond, inc = parts[0], parts[1], None
+        first = (k == 'DoStmt')
+        for _ in range(600):
+            if not first:
+                if cond and cond.get('kind'):
+                    c = self.ev(cond)
+                    c = self.to_bool(c) if isinstance(c, Int) and len(c.bits) != 1 else c
+                    if not (isinstance(c, Int) and c.bits[0] in (0, 1)):
+                        raise Untranslatable('loop whose condition depends on a value that is not a known constant')
+                    if c.bits[0] == 0:
+                        return None
+            first = False
+            r = self.stmt(body)
+            if r is not None:
+                if r[0] == 'break':
+                    return None
+                if r[0] != 'continue':
+                    return r
+            if inc and inc.get('kind'):
+                self.ev(inc)
+        raise Untranslatable('loop does not end within 600 iterations')
 
     def if_stmt(self, st):
         parts = st['inner']
@@ -1218,6 +1278,14 @@ class Eval:
             if c.bits[0] == 1:
                 return self.stmt(then)
             return self.stmt(els) if els is not None else None
+        if (self.mode == 'parse' and els is None and isinstance(c, Int) and isinstance(c.bits[0], tuple)
+                and c.bits[0][0] == 'hc' and self.is_return_false(then)):
+            # guard clause `if (header condition) return false;`: the layout describes the messages that pass it
+            lits = self.hc_literals(c.bits[0][1], False)
+            if lits is None:
+                raise Untranslatable('guard clause on a disjunction of header conditions')
+            self.assumed += lits
+            return None
         if (self.mode == 'parse' and self.depth == 0 and els is None and isinstance(c, Int) and isinstance(c.bits[0], tuple)
                 and c.bits[0][0] == 'hc' and self.accept_cond is None):
             # `if (header condition) { read the fields }` : the layout describes the accepted messages; the function
@@ -1287,6 +1355,20 @@ class Eval:
         if not ok:
             self.frame.vars = saved
         return ok
+
+    @staticmethod
+    def hc_literals(c, positive):
+        """header condition `c` assumed true (positive) or false: list of literals (name, op, const) or None (disjunction)"""
+        neg = {'==': '!=', '!=': '==', '<': '>=', '>=': '<', '>': '<=', '<=': '>'}
+        if c[0] == 'not':
+            return Eval.hc_literals(c[1], not positive)
+        if c[0] == 'and':
+            if not positive:
+                return None
+            a, b = Eval.hc_literals(c[1], True), Eval.hc_literals(c[2], True)
+            return None if a is None or b is None else a + b
+        name, op, cv = c
+        return [(name, op if positive else neg[op], cv)]
 
     def whole_uint_param(self, v):
         """name of the unsigned integer parameter whose unmodified value `v` is (zero-extended), else None"""
@@ -1415,13 +1497,13 @@ class Eval:
             self.payload, self.frame.vars, self.scaled = self.payload[:base], dict(saved), dict(sc)
             r2 = self.stmt(els) if els is not None else None
             p2, v2 = self.payload[base:], self.frame.vars
-            if r1 is not None or r2 is not None:
-                raise Untranslatable('return inside a conditional')
-            if len(p1) != len(p2) or self.tail:
+            if (r1 is not None and r1[0] != 'return') or (r2 is not None and r2[0] != 'return'):
+                raise Untranslatable('break/continue under a condition that is not a known constant')
+            if r1 is not None or r2 is not None or len(p1) != len(p2) or self.tail:
                 self.payload = self.payload[:base]
                 self.frame.vars = saved
                 self.scaled = sc
-                self.tail = 'conditional whose branches append different lengths'
+                self.tail = 'conditional whose paths differ in length or return early'
                 return ('tail', None)
             self.payload = self.payload[:base] + [a if a == b else None for a, b in zip(p1, p2)]
             self.scaled = sc         # a scaled item added in only one branch is not a layout fact
@@ -1491,24 +1573,50 @@ class Eval:
             try:
                 r = self.stmt(st)
             except Untranslatable as e:
-                if self.mode == 'parse' and (self.guard is not None or self.out_any()):
-                    # keep what was read so far; the rest is not translated
+                if self.mode == 'parse' and self.depth == 0 and (self.guard is not None or any(l[0] == 'PGN' and l[1] == '==' for l in self.assumed)):
+                    # the PGN guard is established and everything read so far is exact; the rest is not translated. An output
+                    # that the untranslated rest still mentions may be changed there: it is not kept.
                     self.tail = str(e)
+                    rest = body.get('inner', [])[body.get('inner', []).index(st):]
+                    mentioned = set()
+
+                    def walk(n_):
+                        if n_.get('kind') == 'DeclRefExpr':
+                            mentioned.add(n_['referencedDecl'].get('name'))
+                        if n_.get('kind') == 'MemberExpr':
+                            mentioned.add(n_.get('name'))
+                        for c_ in n_.get('inner', []):
+                            walk(c_)
+                    for r_ in rest:
+                        walk(r_)
+                    for k_ in list(self.frame.vars):
+                        nm_ = k_.split('.')[-1]
+                        if (k_ in mentioned or nm_ in mentioned) and isinstance(self.frame.vars[k_], (Int, Fp)):
+                            self.frame.vars[k_] = Unknown('may be changed by the untranslated rest of the function')
                     break
                 raise
             if r is not None:
                 if r[0] == 'return':
                     self.retval = r[1]
                 break
-        if self.mode == 'parse' and self.accept_cond is not None:
-            rv = self.retval
-            rv = self.to_bool(rv) if isinstance(rv, Int) and len(rv.bits) != 1 else rv
-            if not (isinstance(rv, Int) and rv.bits[0] == self.accept_cond):
-                raise Untranslatable('fields are read under a header condition that is not the return value')
-            def lits(c):
-                return lits(c[1]) + lits(c[2]) if c[0] == 'and' else [c]
-            for name, op, cv in lits(self.accept_cond[1]):
-                if name == 'PGN' and op == '==' and self.guard is None:
+        if self.mode == 'parse' and (self.accept_cond is not None or self.assumed):
+            lits = list(self.assumed)
+            if self.accept_cond is not None:
+                rv = self.retval
+                rv = self.to_bool(rv) if isinstance(rv, Int) and len(rv.bits) != 1 else rv
+                if not (isinstance(rv, Int) and rv.bits[0] == self.accept_cond):
+                    raise Untranslatable('fields are read under a header condition that is not the return value')
+                more = self.hc_literals(self.accept_cond[1], True)
+                if more is None:
+                    raise Untranslatable('header condition with a disjunction')
+                lits += more
+            elif not self.tail:
+                rv = self.retval
+                rv = self.to_bool(rv) if isinstance(rv, Int) and len(rv.bits) != 1 else rv
+                if not (isinstance(rv, Int) and rv.bits[0] == 1):
+                    raise Untranslatable('guard clauses passed but the function does not return true')
+            for name, op, cv in lits:
+                if name == 'PGN' and op == '==' and self.guard in (None, cv):
                     self.guard = cv
                 elif name == 'DataLen' and op == '>=':
                     self.len_min = max(self.len_min, cv)
@@ -1555,14 +1663,22 @@ def setter_paths(world, fn, limit=3):
 
 
 def translate_function(world, fn, mode, known=None):
+    """-> (Eval, error text or None). On failure the Eval is still returned when its parameter table could be built
+    (marked `.failed`): the harness glue needs the signature of a function whose body is not translated."""
+    ev = None
     try:
         ev = Eval(world, fn, mode, known=known)
+        ev.failed = None
         ev.run()
         return ev, None
     except Untranslatable as e:
-        return None, str(e)
+        err = str(e)
     except (KeyError, IndexError, TypeError, ValueError) as e:      # unexpected AST shape: report, never guess
-        return None, 'unexpected AST shape: %r' % (e,)
+        err = 'unexpected AST shape: %r' % (e,)
+    if ev is not None and hasattr(ev, 'params'):
+        ev.failed = err
+        return ev, err
+    return None, err
 
 
 def lean_bits(bits):
@@ -1617,8 +1733,11 @@ def build_pairs(world, pid, sfn, pfn, stats):
     base = build_pair(world, pid, sfn, pfn, stats)
     out = [base]
     paths = setter_paths(world, sfn) if sfn else []
+    # named by content (longest payload first, then most parameter bits), so that rewriting a condition as its negation
+    # does not rename the variants
+    paths.sort(key=lambda e_: (-len(e_.payload), -sum(1 for b_ in e_.payload if isinstance(b_, tuple))))
     for k, Sv in enumerate(paths):
-        suffix = ''.join('t' if d else 'e' for _, d in Sv.path) or str(k)
+        suffix = 'abcdefgh'[k] if k < 8 else str(k)
         known = {i: b for i, b in enumerate(Sv.payload) if b in (0, 1) and not isinstance(b, bool)}
         R = build_pair(world, '%s_%s' % (pid, suffix), sfn, pfn, stats, S=Sv, known=known)
         R['variant_of'] = pid
@@ -1673,10 +1792,11 @@ def build_pair(world, pid, sfn, pfn, stats, S=None, known=None):
         P, err = translate_function(world, pfn, 'parse', known=known)
         if err:
             R['notes'].append('parser not translated: ' + err)
-    R['S'], R['P'] = S, P
+    R['S'], R['P'] = S, P            # kept for the harness glue (signatures) even when the body is not translated
+    Sfull, Pfull = S, P
     # field table: setter parameters first, then parser-only outputs
     names, info = [], {}
-    for ev_ in (S, P):
+    for ev_ in (Sfull, Pfull):
         if ev_ is None:
             continue
         for f in ev_.fields:
@@ -1689,15 +1809,18 @@ def build_pair(world, pid, sfn, pfn, stats, S=None, known=None):
                     continue
                 names.append(key)
                 info[key] = dict(f)
-                info[key]['in_setter'] = ev_ is S
+                info[key]['in_setter'] = ev_ is Sfull
                 info[key]['in_parser'] = False
-            if ev_ is P:
+            if ev_ is Pfull:
                 info[key]['in_parser'] = info[key].get('in_parser') or True
                 info[key]['pfield'] = f
             else:
                 info[key]['sfield'] = f
     R['names'], R['info'] = names, info
     idx = {n: i for i, n in enumerate(names)}
+    # from here on only TRANSLATED functions contribute layouts
+    S = S if (S is not None and not getattr(S, 'failed', None)) else None
+    P = P if (P is not None and not getattr(P, 'failed', None)) else None
 
     def canon(name):
         if name in idx:
